@@ -1,4 +1,5 @@
 import Reclass.Props.C11
+import Reclass.Props.C11b
 open Reclass
 #print axioms Reclass.C11.splitColon_ne_nil
 #print axioms Reclass.C11.merge_target_ok
@@ -14,3 +15,19 @@ open Reclass
 #print axioms Reclass.C11.model_total'
 #print axioms Reclass.C11.yaml_render_total
 #print axioms Reclass.C11.yaml_rendered_total
+#print axioms Reclass.C11.ofSrc_no_panic
+#print axioms Reclass.C11.readClass_no_panic
+#print axioms Reclass.C11.mergeInto_no_panic
+#print axioms Reclass.C11.resolveClassName_no_panic
+#print axioms Reclass.C11.walk_no_panic
+#print axioms Reclass.C11.walkClasses_no_panic
+#print axioms Reclass.C11.renderNodeSrc_no_panic
+#print axioms Reclass.C11.renderNode_no_panic
+#print axioms Reclass.C11.renderNode_outcome
+#print axioms Reclass.C11.render_inventory_no_panic
+#print axioms Reclass.C11.renderNode_fuel_mono
+#print axioms Reclass.C11.renderNode_ok_stable
+#print axioms Reclass.C11.renderNode_fuel_cases
+#print axioms Reclass.C11.renderNode_settles
+#print axioms Reclass.C11.renderNode_settles_residue
+#print axioms Reclass.C11.renderNode_settles_ok
